@@ -185,7 +185,7 @@ func findPayeeReferences(payee string, resolved *include.ResolvedJournal, curren
 			if txPayee == payee {
 				locations = append(locations, protocol.Location{
 					URI:   pathToURI(filePath),
-					Range: *mapper.toProtocol(estimatePayeeRange(tx, payee)),
+					Range: *mapper.toProtocol(mapper.payeeRange(tx, payee)),
 				})
 			}
 		}
